@@ -297,7 +297,7 @@ theorem dense_passOK (os : Objects) (ids : List ObjId) (start : Nat) (hn : ids.N
 /-- the dense pass of any document with a sorted object map, in the domain `1 ≤ start+n ≤ u32::MAX`,
 returns and is an `IsoStep` with the dense assignment as renaming -/
 theorem densePass_isoStep (d1 : Doc) (start : Nat) (hs : d1.objects.Sorted)
-    (hlo : 1 ≤ start + d1.objects.length) (hhi : start + d1.objects.length ≤ U32_MAXE) :
+    (hhi : start + d1.objects.length ≤ U32_MAXE + 1) :
     ∃ d2, densePass d1 start = .ok d2 ∧ d2.maxId = start + d1.objects.length - 1 ∧
       IsoStep d1.trailer d1.objects d2.trailer d2.objects (rhoFn (denseSpec (sortBy idLeE d1.objects.keys) start)) ∧
       (∀ p ∈ assign (sortBy idLeE d1.objects.keys) start, rhoFn (denseSpec (sortBy idLeE d1.objects.keys) start) p.1 = p.2) := by
@@ -316,8 +316,6 @@ theorem densePass_isoStep (d1 : Doc) (start : Nat) (hs : d1.objects.Sorted)
     unfold densePass
     rw [hids, densePairs_eq _ _ _ (by rw [hlen]; exact hhi)]
     simp only [List.nil_append, hlen]
-    have h0 : ¬ (start + d1.objects.length = 0) := by omega
-    simp only [h0, if_false]
     exact ⟨_, rfl, rfl, rfl, rfl⟩
   obtain ⟨d2, e1, e2, e3, e4⟩ := hren
   refine ⟨d2, e1, e2, ?_, rho_assign ids start hn⟩
@@ -423,15 +421,39 @@ theorem pages_are_keys (tr : Dict) (os : Objects) : ∀ p ∈ pageIter tr os, (o
   | some o => rfl
   | none => simp [getDictionary, getObject, hg] at this
 
-/-- the page-order pass is an `IsoStep` (guards: no page enumerated twice, object numbers pairwise distinct) -/
-theorem pagePass_isoStep (d : Doc) (g1 : (pageIter d.trailer d.objects).Nodup) (g2 : (d.objects.keys.map (·.1)).Nodup) :
+theorem firstOccAux_spec (seen : List ObjId) : ∀ l : List ObjId,
+    (firstOccAux seen l).Nodup ∧ (∀ x ∈ firstOccAux seen l, x ∈ l ∧ x ∉ seen) := by
+  intro l
+  induction l generalizing seen with
+  | nil => simp [firstOccAux]
+  | cons x xs ih =>
+    simp only [firstOccAux]
+    split
+    · obtain ⟨h1, h2⟩ := ih seen
+      exact ⟨h1, fun y hy => ⟨List.mem_cons_of_mem _ (h2 y hy).1, (h2 y hy).2⟩⟩
+    · rename_i hx
+      obtain ⟨h1, h2⟩ := ih (x :: seen)
+      refine ⟨List.nodup_cons.mpr ⟨fun hm => (h2 x hm).2 (by simp), h1⟩, ?_⟩
+      intro y hy
+      rcases List.mem_cons.mp hy with rfl | hy'
+      · exact ⟨by simp, by simpa using hx⟩
+      · have := h2 y hy'
+        exact ⟨List.mem_cons_of_mem _ this.1, fun hs => this.2 (List.mem_cons_of_mem _ hs)⟩
+
+theorem firstOcc_nodup (l : List ObjId) : (firstOcc l).Nodup := (firstOccAux_spec [] l).1
+theorem firstOcc_sub (l : List ObjId) : ∀ x ∈ firstOcc l, x ∈ l := fun x hx => ((firstOccAux_spec [] l).2 x hx).1
+
+/-- the page-order pass is an `IsoStep` (guard: object numbers pairwise distinct; a page the tree lists twice
+is taken once since the fix of F-C11-d) -/
+theorem pagePass_isoStep (d : Doc) (g2 : (d.objects.keys.map (·.1)).Nodup) :
     ∃ r1, IsoStep d.trailer d.objects (pagePass d).trailer (pagePass d).objects r1 := by
-  cases hp : pagePairs (pageIter d.trailer d.objects) with
+  cases hp : pagePairs (firstOcc (pageIter d.trailer d.objects)) with
   | none =>
     have : pagePass d = d := by unfold pagePass; rw [hp]
     rw [this]; exact ⟨id, isoStep_id _ _⟩
   | some pairs =>
-    have hok := pagePairs_passOK d.objects _ pairs hp g1 (pages_are_keys _ _) g2
+    have hok := pagePairs_passOK d.objects _ pairs hp (firstOcc_nodup _)
+      (fun p hp' => pages_are_keys _ _ p (firstOcc_sub _ p hp')) g2
     refine ⟨rhoFn pairs, ?_⟩
     have := pass_isoStep d.bookmarks d.objects d.bmTable d.trailer pairs hok
     unfold pagePass; rw [hp]; exact this
